@@ -118,3 +118,35 @@ func ZZH_C08_broker_entry() {
 		zz.Assert("C07.broker.failed-transaction-leaves-evm-storage", ok && len(v) == 32 && v[31] == 7)
 	}
 }
+
+// ZZH_C08_malformed_ibtp_ids: a block with one IBTP transaction whose source or destination id is
+// malformed (empty, no colon, too few or too many segments, only separators, a dash inside), as a
+// request or as a receipt, goes through the real processExecuteEvent: the block is executed and
+// committed with the next height, the transaction has its receipt.
+func ZZH_C08_malformed_ibtp_ids() {
+	exec := zzNewExec(1, big.NewInt(0))
+	exec.ibtpVerify = &zzStubVerify{verdict: make([]uint8, 8), seen: make([]int, 8)}
+	exec.config.ProofType = "serial"
+	zzInterchainWorld(exec)
+	exec.processExecuteEvent(zzBlockOf(1, nil))
+	ids := []string{"", "not-a-service-id", "1356", "a:b", "a:b:c:d", ":::", "1356:chB:s-B", "1356:chB:sB"}
+	tx := zzRequestTx(1, 0, 0)
+	which := zz.Choice("field", 2)
+	bad := ids[zz.Choice("id", len(ids))]
+	if which == 0 {
+		tx.IBTP.To = bad
+	} else {
+		tx.IBTP.From = bad
+	}
+	if zz.Choice("receipt", 2) == 1 {
+		tx.IBTP.Type = pb.IBTP_RECEIPT_SUCCESS
+	}
+	crashed, _ := zz.Crashed(func() { exec.processExecuteEvent(zzBlockOf(2, []pb.Transaction{tx})) })
+	zz.Assert("C08.ids.block-executes", !crashed)
+	if crashed {
+		return
+	}
+	zz.Assert("C08.ids.committed-with-the-next-height", exec.ledger.GetChainMeta().Height == 2)
+	r, e := exec.ledger.GetReceipt(tx.GetHash())
+	zz.Assert("C08.ids.one-receipt", e == nil && r != nil)
+}
